@@ -248,8 +248,13 @@ func ruleC19_2(c *Ctx) {
 	var schemePhi *ssa.Phi
 	for _, b := range g.Blocks {
 		for _, in := range b.Instrs {
-			if ph, ok := in.(*ssa.Phi); ok && ph.Comment == "scheme" {
-				schemePhi = ph
+			// the merged scheme: the string phi that reaches result 0
+			if ph, ok := in.(*ssa.Phi); ok && typeStr(ph.Type()) == "string" {
+				for _, r := range returnsOf(g) {
+					if len(r.Results) > 0 && resolve(r.Results[0], r) == ssa.Value(ph) {
+						schemePhi = ph
+					}
+				}
 			}
 		}
 	}
